@@ -184,3 +184,13 @@ package mkvs
 //@   props C03
 //@   requires it != nil && it.tree != nil
 //@   ensures OvItClean(it)
+
+// ---- remote sync (C04): a fetched proof that does not contain the requested node is an error, never "absent" ----
+
+//@ ghost var GRemoteSyncs int
+
+//@ func cache.derefNodePtr
+//@   props C04
+//@   requires c != nil
+//@   ensures err == nil && GRemoteSyncs > old(GRemoteSyncs) ==> result0 != nil
+//@   note when the node had to be fetched from the remote peer (remoteSync was called) and no error is returned, a node is returned: a peer's proof that verifies but does not carry the requested node cannot make a present key look absent
